@@ -42,13 +42,17 @@ struct C05 : RBase {
     // a local that is only assigned on one path, read twice before any assignment, in a function called repeatedly (recycled context)
     { json isn = json{{"k", "bi"}, {"f", "isnull"}, {"args", json::array({var("lc", "str")})}, {"t", "bool"}};
       F.push_back(func("unset", {{"k", "int"}}, "bool", {iff(bin("==", var("k"), ilit(1), "bool"), {let("lc", slit("set"))}), print({slit("unset:"), isn, isn}), iff(isn, {print({slit("still unset")})}), ret(isn)})); }
+    F.push_back(func("cat2", {{"a", "str"}, {"b", "str"}}, "str", {let("loc2", bin("+", var("a", "str"), slit("|"), "str")), ret(bin("+", var("loc2", "str"), var("b", "str"), "str"))}));
     B.push_back(let("ta", tab(ilit(3), ilit(1)))); B.push_back(let("sa", slit("abc"))); B.push_back(let("ua", tup({ilit(1), slit("x")}))); B.push_back(let("ia", ilit(5)));
     B.push_back(let("tb", var("ta", "tabint"))); B.push_back(let("sb", var("sa", "str"))); B.push_back(let("ub", var("ua", "tup"))); B.push_back(let("ts0", tab(ilit(2), slit("e"), "tabstr")));
     auto show = [&]() { B.push_back(print({slit("ta="), mth("at", var("ta", "tabint"), {ilit(0)}), mth("count", var("ta", "tabint"), {}), slit(" tb="), mth("at", var("tb", "tabint"), {ilit(0)}), mth("count", var("tb", "tabint"), {}), slit(" sa="), var("sa", "str"), slit(" sb="), var("sb", "str"), slit(" ua="), var("ua", "tup"), slit(" ub="), var("ub", "tup"), slit(" ia="), var("ia")})); };
     int pid = p.fault_points;
     int n = (int)r.range(6, 20);
     for (int i = 0; i < n; ++i) {
-      switch (r.below(32)) {
+      switch (r.below(34)) {
+      case 32: // the same function called while its own arguments are evaluated, repeatedly
+        B.push_back(forl("r9", ilit(1), ilit(3), {print({call("cat2", {var("sa", "str"), call("cat2", {slit("c"), slit("d")}, "str")}, "str"), slit(" "), call("cat2", {call("cat2", {slit("e"), var("sb", "str")}, "str"), slit("f")}, "str")})})); break;
+      case 33: B.push_back(print({slit("sub:"), json{{"k", "bi"}, {"f", "substr"}, {"args", json::array({var("sa", "str"), ilit(r.pick(std::vector<long>{3, 9, 50}))})}, {"t", "str"}}, slit("|"), json{{"k", "bi"}, {"f", "substr"}, {"args", json::array({slit("world"), ilit(r.pick(std::vector<long>{2, 5, 9})), ilit(r.range(0, 2))})}, {"t", "str"}}})); break;
       case 27: // a forall iterator read repeatedly after its loop has ended (it is a null of the element type then)
         B.push_back(let("tb", var("ta", "tabint"))); B.push_back(forall("z7", var("tb", "tabint"), {let("z7", bin("+", var("z7"), ilit(1)))}));
         B.push_back(print({slit("z7:"), json{{"k", "bi"}, {"f", "isnull"}, {"args", json::array({var("z7")})}, {"t", "bool"}}, json{{"k", "bi"}, {"f", "isnull"}, {"args", json::array({var("z7")})}, {"t", "bool"}}, json{{"k", "bi"}, {"f", "isnull"}, {"args", json::array({bin("+", var("z7"), ilit(1))})}, {"t", "bool"}}})); break;
@@ -73,7 +77,7 @@ struct C05 : RBase {
         json src = r.chance(0.7) ? var("sa", "str") : slit("Lit");
         json recv; switch (r.below(4)) {
           case 0: recv = json{{"k", "bi"}, {"f", PASS[r.below(6)]}, {"args", json::array({src})}, {"t", "str"}}; break;
-          case 1: recv = json{{"k", "bi"}, {"f", "substr"}, {"args", json::array({src, ilit(0)})}, {"t", "str"}}; break;
+          case 1: recv = json{{"k", "bi"}, {"f", "substr"}, {"args", r.chance(0.5) ? json::array({src, ilit(r.pick(std::vector<long>{0, 1, 2, 9, 50}))}) : json::array({src, ilit(r.range(0, 3)), ilit(r.pick(std::vector<long>{0, 1, 2, 50}))})}, {"t", "str"}}; break;   // also empty selections
           case 2: recv = json{{"k", "bi"}, {"f", "replace"}, {"args", json::array({src, slit(r.chance(0.5) ? "" : "zz"), slit("y")})}, {"t", "str"}}; break;
           default: recv = json{{"k", "bi"}, {"f", "str"}, {"args", json::array({src})}, {"t", "str"}}; break; }
         if (r.chance(0.3)) { // a null or out-of-range second operand makes the built-in hand its first operand through; the result is never printed (only the operand must stay intact)
